@@ -473,13 +473,13 @@ REQUIRED_LABELS = {t: ["change:%s" % x for x in CHANGES] + ["out:serve", "out:er
 
 def stages(tier):
     return [EnumStage("grid", lambda t, s: Grid(t, s), run_case, exhaustive={"thorough": True},
-                      budget_s={"quick": 120, "thorough": 1800}),
+                      budget_s={"quick": 360, "thorough": 1800}),
             EnumStage("bring-up-faults", fault_cases, run_fault_case,
                       exhaustive={"quick": True, "thorough": True},
-                      budget_s={"quick": 60, "thorough": 120}),
+                      budget_s={"quick": 180, "thorough": 120}),
             EnumStage("server", server_cases, run_server,
                       exhaustive={"quick": True, "thorough": True},
-                      budget_s={"quick": 60, "thorough": 60}),
+                      budget_s={"quick": 180, "thorough": 60}),
             EnumStage("manager-programs", program_cases, run_program,
                       exhaustive={"quick": True, "thorough": True},
-                      budget_s={"quick": 90, "thorough": 120})]
+                      budget_s={"quick": 270, "thorough": 120})]
